@@ -43,6 +43,7 @@ type Config struct {
 	AllocBudget      bool              `json:"allocBudget"`
 	Preempt          int               `json:"preemptions"`
 	MaxGoroutines    int               `json:"maxGoroutines"`
+	Race             bool              `json:"race"`
 	Sched            bool              `json:"sched"`
 	Env              map[string]string `json:"env"`
 }
